@@ -29,7 +29,7 @@ func (w *world) key() *idempotency.Key {
 	case 1:
 		return kp("k1")
 	case 2:
-		return kp("k2")
+		return pick(w.r, kp("k2"), kp("K1"))
 	}
 	return kp("k1")
 }
